@@ -37,17 +37,18 @@ theorem one_outstanding (acts : List Act) (c : Nat) :
   refine ⟨h.2.2.1, fun h1 => h.2.2.2.1 ?_⟩
   intro h0; rw [h0] at h1; simp at h1
 
-/-- ★ a connection in the idle set is not serving, is owned by no goroutine, owes no reply,
-    never saw a failed or undecodable I/O (its last exchange ended without error), and the
-    reply to every query ever written to it has been consumed completely. -/
+/-- ★ a connection in the idle set is not serving, is owned by no goroutine, owes no reply and
+    holds no half-consumed reply (the reply to every query ever written to it has been consumed
+    completely), and never saw a failed or undecodable I/O (its last exchange ended without
+    error). -/
 theorem idle_clean (acts : List Act) (c : Nat) (hc : c ∈ (reach acts).idle) :
     ((reach acts).conn c).serving = false ∧ ((reach acts).conn c).worker = none ∧
-    ((reach acts).conn c).pending = [] ∧ (mon (reach acts).hist).out c = [] ∧
-    (mon (reach acts).hist).dirty c = false := by
+    ((reach acts).conn c).pending = [] ∧ ((reach acts).conn c).halfRead = false ∧
+    (mon (reach acts).hist).out c = [] ∧ (mon (reach acts).hist).dirty c = false := by
   have h := (reach_inv acts).conn c
   simp only [ConnOK, COK] at h
   have hi := h.2.2.2.2.1 hc
-  exact ⟨hi.2.1, hi.1, hi.2.2.1, by rw [h.1]; exact hi.2.2.1, hi.2.2.2.1⟩
+  exact ⟨hi.2.1, hi.1, hi.2.2.1, hi.2.2.2.1, by rw [h.1]; exact hi.2.2.1, hi.2.2.2.2.1⟩
 
 /-- the monitor never recovers: once `ok` is false it stays false -/
 theorem monStep_ok_mono (m : Mon) (ev : Event) (h : (monStep m ev).ok = true) : m.ok = true := by
@@ -116,6 +117,19 @@ theorem foldl_out_le_one (l : List Event) (m : Mon) (c : Nat) (hok : (l.foldl mo
 theorem mon_out_le_one (h : List Event) (c : Nat) (hs : spec h = true) : ((mon h).out c).length ≤ 1 :=
   foldl_out_le_one h Mon.init c hs (by simp [Mon.init])
 
+/-- what `spec` says about reuse: whenever a connection is handed to an exchange, nothing is
+    outstanding on it, no I/O on it has failed, its previous user's reply has been drained,
+    and it has not been closed by the client (unless the whole transport was closed). -/
+theorem spec_use_clean (h₁ h₂ : List Event) (c q : Nat) (hs : spec (h₁ ++ Event.use c q :: h₂) = true) :
+    (mon h₁).out c = [] ∧ (mon h₁).dirty c = false ∧ (mon h₁).ab c = false ∧
+    ((mon h₁).closed c = true → (mon h₁).tclosed = true) := by
+  have := spec_prefix (h₁ ++ [Event.use c q]) h₂ (by simpa using hs)
+  simp [spec, monStep] at this
+  refine ⟨this.1.1.1.2, this.1.1.2, this.1.2, fun hc => ?_⟩
+  rcases this.2 with h | h
+  · rw [hc] at h; exact Bool.noConfusion h
+  · exact h
+
 theorem spec_one_outstanding (h₁ h₂ : List Event) (c : Nat) (hs : spec (h₁ ++ h₂) = true) :
     ((mon h₁).out c).length ≤ 1 :=
   mon_out_le_one h₁ c (spec_prefix h₁ h₂ hs)
@@ -141,7 +155,7 @@ theorem idle_not_abandoned (acts : List Act) (c : Nat) (hc : c ∈ (reach acts).
     (mon (reach acts).hist).ab c = false := by
   have h := (reach_inv acts).conn c
   simp only [ConnOK, COK] at h
-  exact (h.2.2.2.2.1 hc).2.2.2.2.2
+  exact (h.2.2.2.2.1 hc).2.2.2.2.2.2
 
 /-- `abandoned_drained_or_closed`: if the caller of exchange `e` gives up (`ret e ctx`) while
     connection `c` is in `e`'s hands, and `c` is later found in the idle set, then in between
@@ -167,7 +181,7 @@ theorem rd_only_by_workerReadOk (s : State) (a : Act) (c q : Nat)
   unfold step at hnew
   split at hnew
   · exact absurd hnew hold
-  · cases a <;> simp only [stepCore] at hnew
+  · cases a <;> simp only [stepCore, stepCoreG] at hnew
     case workerReadOk c' =>
       repeat' split at hnew
       all_goals simp [State.emit, State.setConn, hold] at hnew
@@ -189,12 +203,25 @@ theorem rd_only_by_workerReadOk (s : State) (a : Act) (c q : Nat)
 theorem no_double_use (acts : List Act) : (reach acts).fault = none :=
   (reach_inv acts).fault
 
+/-- Assumption A1 is needed: if the idle timer of a freshly dialled connection fires before the
+    dial goroutine's `rc.exitIdle()` (possible only when `IdleTimeout` is shorter than the few
+    instructions between the two calls) and the caller has given up meanwhile, the dial
+    goroutine's `releaseConn(rc, nil)` reaches `panic("call enterIdle on a idle connection")`.
+    (Replayed on the real code with `IdleTimeout: time.Nanosecond`.) -/
+theorem early_timer_panics :
+    (execRacy State.init [.start 1, .cancel 1, .getIdle 1 none, .giveUp 1, .dialDone 1 true, .idleTimer 0,
+      .dialExit 0, .dialDeliver 0 false, .workerRelA 0]).fault = some .enterIdleIdle := by decide
+
+/-- … while under A1 the same schedule is harmless. -/
+example : (reach [.start 1, .cancel 1, .getIdle 1 none, .giveUp 1, .dialDone 1 true, .idleTimer 0,
+      .dialExit 0, .dialDeliver 0 false, .workerRelA 0, .workerRelB 0]).idle = [0] := by decide
+
 /-! ### non-vacuity -/
 
 /-- a schedule that puts a connection into the idle set (so `idle_clean` is not vacuous) … -/
 def demoActs : List Act :=
-  [.start 1, .getIdle 1 none, .dialDone 1 true, .dialDeliver 0 true, .workerWrite 0 false,
-   .srvReply 0 true, .workerReadOk 0, .workerPost 0, .recvRes 1, .workerRelA 0, .workerRelB 0]
+  [.start 1, .getIdle 1 none, .dialDone 1 true, .dialExit 0, .dialDeliver 0 true, .workerWrite 0 false,
+   .workerReadPart 0, .srvReply 0 true, .workerReadOk 0, .workerPost 0, .recvRes 1, .workerRelA 0, .workerRelB 0]
 
 example : (reach demoActs).idle = [0] := by decide
 example : (reach demoActs).hist = [.dial 0, .use 0 1, .wr 0 1, .rd 0 1, .ret 1 (.ok 1)] := by decide
@@ -203,10 +230,10 @@ example : (reach (demoActs ++ [.start 2, .getIdle 2 (some 0), .workerWrite 0 fal
     [.dial 0, .use 0 1, .wr 0 1, .rd 0 1, .ret 1 (.ok 1), .use 0 2, .wr 0 2] := by decide
 /-- a caller that gives up while its query is outstanding: the connection stays with the
     worker, and comes back only after the reply was drained -/
-example : (reach [.start 1, .getIdle 1 none, .dialDone 1 true, .dialDeliver 0 true, .workerWrite 0 false,
-    .cancel 1, .giveUp 1]).idle = [] := by decide
-example : (reach [.start 1, .getIdle 1 none, .dialDone 1 true, .dialDeliver 0 true, .workerWrite 0 false,
-    .cancel 1, .giveUp 1, .srvReply 0 true, .workerReadOk 0, .workerPost 0, .workerRelA 0, .workerRelB 0]).idle
+example : (reach [.start 1, .getIdle 1 none, .dialDone 1 true, .dialExit 0, .dialDeliver 0 true,
+    .workerWrite 0 false, .cancel 1, .giveUp 1]).idle = [] := by decide
+example : (reach [.start 1, .getIdle 1 none, .dialDone 1 true, .dialExit 0, .dialDeliver 0 true,
+    .workerWrite 0 false, .cancel 1, .giveUp 1, .srvReply 0 true, .workerReadOk 0, .workerPost 0, .workerRelA 0, .workerRelB 0]).idle
     = [0] := by decide
 
 /-- the specification is not vacuous: it rejects … a second query on a connection that still owes a reply, -/
